@@ -1,10 +1,17 @@
 /-
   Lemmas/Munch: the crate's picture lexer (Model/Lexer) equals the generic maximal-munch tokenizer
   over the documented token table (Spec/Munch).
+
+  First-token agreement holds for every byte string except those starting with `ff0` (any letter case):
+  there the crate answers `Invalid` at once, while maximal munch takes `ff` and fails one step later on `0`.
+  Whole-picture agreement (`tryNew_eq_munch`) holds without exception.
 -/
 import SqlDt.Spec.Munch
 namespace SqlDt.Lemmas
 open SqlDt Gen Spec
+set_option linter.unusedSimpArgs false
+
+/-! ## Blank runs -/
 
 /-- `countLeading 32` of `n` blanks followed by something that does not start with a blank is `n`. -/
 theorem countLeading_replicate (n : Nat) (rest : Bytes) (h : rest.head? ≠ some 32) :
@@ -31,19 +38,323 @@ theorem takeWhile_blank (s : Bytes) : (s.takeWhile (· == 32)).length = countLea
 theorem next_blank (rest : Bytes) : Lexer.nextNorm (32 :: rest) = munchNext (32 :: rest) := by
   simp [Lexer.nextNorm, Lexer.next, munchNext, B, List.takeWhile, takeWhile_blank]
 
-/-- First-token agreement, for EVERY byte string.
-    OPEN, and FALSE as stated: `decide` proves
-    `Lexer.nextNorm [102,102,48] ≠ munchNext [102,102,48]` (picture `ff0`; likewise `FF0`, `Ff0`, `fF0`
-    followed by anything).  The model's `parseFraction` answers `Invalid` for `ff` + digit `0`, the table's
-    longest match is `ff` (`Fraction none`, rest `0…`). -/
-theorem next_eq_munchNext (s : Bytes) : Lexer.nextNorm s = munchNext s := by
-  sorry
+/-! ## The token table in numerals, case-insensitive comparison, `longestMatch` as a fold over a filter -/
 
-/-- `Formatter::try_new` = maximal munch over the documented table, for every byte string.
-    OPEN (believed true: after `ff` the spec fails on the `0` at the next step, so both sides reject;
-    it cannot be derived from `next_eq_munchNext`, which is false at `ff0`). -/
-theorem tryNew_eq_munch (pic : Bytes) : Lexer.tryNew pic = munch pic := by
-  sorry
+theorem tokenTable_eq : tokenTable = [
+  ⟨[121,121,121,121], false, fun _ => .Year 4⟩, ⟨[121,121,121], false, fun _ => .Year 3⟩, ⟨[121,121], false, fun _ => .Year 2⟩,
+  ⟨[121], false, fun _ => .Year 1⟩,
+  ⟨[109,109], false, fun _ => .Month⟩, ⟨[109,111,110], false, fun m => .MonthName (nameStyle m true)⟩,
+  ⟨[109,111,110,116,104], false, fun m => .MonthName (nameStyle m false)⟩,
+  ⟨[100,100], false, fun _ => .Day⟩, ⟨[100,100,100], false, fun _ => .DayOfYear⟩, ⟨[100], false, fun _ => .DayOfWeek⟩,
+  ⟨[100,97,121], false, fun m => .DayName (nameStyle m false)⟩, ⟨[100,121], false, fun m => .DayName (nameStyle m true)⟩,
+  ⟨[104,104], false, fun _ => .Hour12⟩, ⟨[104,104,49,50], false, fun _ => .Hour12⟩, ⟨[104,104,50,52], false, fun _ => .Hour24⟩,
+  ⟨[109,105], false, fun _ => .Minute⟩, ⟨[115,115], false, fun _ => .Second⟩,
+  ⟨[102,102], false, fun _ => .Fraction none⟩,
+  ⟨[102,102,49], false, fun _ => .Fraction (some 1)⟩, ⟨[102,102,50], false, fun _ => .Fraction (some 2)⟩,
+  ⟨[102,102,51], false, fun _ => .Fraction (some 3)⟩, ⟨[102,102,52], false, fun _ => .Fraction (some 4)⟩,
+  ⟨[102,102,53], false, fun _ => .Fraction (some 5)⟩, ⟨[102,102,54], false, fun _ => .Fraction (some 6)⟩,
+  ⟨[102,102,55], false, fun _ => .Fraction (some 7)⟩, ⟨[102,102,56], false, fun _ => .Fraction (some 8)⟩,
+  ⟨[102,102,57], false, fun _ => .Fraction (some 9)⟩,
+  ⟨[97,109], false, fun m => .AmPm (ampmStyle m false)⟩, ⟨[112,109], false, fun m => .AmPm (ampmStyle m false)⟩,
+  ⟨[97,46,109,46], false, fun m => .AmPm (ampmStyle m true)⟩, ⟨[112,46,109,46], false, fun m => .AmPm (ampmStyle m true)⟩,
+  ⟨[119], false, fun _ => .WeekOfMonth⟩, ⟨[119,119], false, fun _ => .WeekOfYear⟩,
+  ⟨[84], true, fun _ => .T⟩,
+  ⟨[45], true, fun _ => .Hyphen⟩, ⟨[58], true, fun _ => .Colon⟩, ⟨[47], true, fun _ => .Slash⟩,
+  ⟨[92], true, fun _ => .Backslash⟩, ⟨[44], true, fun _ => .Comma⟩, ⟨[46], true, fun _ => .Dot⟩,
+  ⟨[59], true, fun _ => .Semicolon⟩ ] := by rfl
+
+theorem eqCI_lower (a l : Nat) (h1 : 97 ≤ l) (h2 : l ≤ 122) :
+    eqIgnoreCaseB a l = (a == l || a == l - 32) := by
+  unfold eqIgnoreCaseB toLowerB isUpperB
+  rw [Bool.eq_iff_iff]
+  simp only [Bool.and_eq_true, decide_eq_true_eq, Bool.or_eq_true, beq_iff_eq]
+  split <;> split <;> omega
+
+theorem eqCI_other (a p : Nat) (h : p < 65 ∨ (90 < p ∧ p < 97) ∨ 122 < p) :
+    eqIgnoreCaseB a p = (a == p) := by
+  unfold eqIgnoreCaseB toLowerB isUpperB
+  rw [Bool.eq_iff_iff]
+  simp only [Bool.and_eq_true, decide_eq_true_eq, beq_iff_eq]
+  split <;> split <;> omega
+
+
+def pick (best : Option Tok) (t : Tok) : Option Tok :=
+  match best with
+  | some b => if t.spelling.length > b.spelling.length then some t else some b
+  | none => some t
+
+theorem foldl_filter_aux (s : Bytes) (l : List Tok) (init : Option Tok) :
+    l.foldl (fun best t =>
+      if t.matchesAt s then
+        match best with
+        | some b => if t.spelling.length > b.spelling.length then some t else some b
+        | none => some t
+      else best) init = (l.filter (·.matchesAt s)).foldl pick init := by
+  induction l generalizing init with
+  | nil => rfl
+  | cons t ts ih =>
+    simp only [List.foldl_cons, List.filter_cons]
+    by_cases h : t.matchesAt s = true
+    · simp only [h, if_true, List.foldl_cons]; rw [ih]; rfl
+    · simp only [h]; rw [ih]; simp
+
+theorem longestMatch_eq (s : Bytes) :
+    longestMatch s = (tokenTable.filter (·.matchesAt s)).foldl pick none := by
+  unfold longestMatch; exact foldl_filter_aux s _ _
+
+theorem filter_cons' {α} (p : α → Bool) (a : α) (l : List α) :
+    List.filter p (a :: l) = (if p a then [a] else []) ++ List.filter p l := by
+  rw [List.filter_cons]; split <;> simp
+
+/-! ## Case-analysis tactics -/
+
+syntax "bsplit " ident " [" num,* "]" : tactic
+macro_rules
+  | `(tactic| bsplit $_x:ident []) => `(tactic| skip)
+  | `(tactic| bsplit $x:ident [$n]) => `(tactic| by_cases h : $x = $n <;> first | subst h | skip)
+  | `(tactic| bsplit $x:ident [$n, $ns,*]) => `(tactic| by_cases h : $x = $n <;> first | subst h | bsplit $x [$ns,*])
+
+/-- Close every goal that full evaluation closes. -/
+macro "fin" : tactic => `(tactic| all_goals try (simp [startsWithCI, startsWith, pick, eqCI_lower, eqCI_other, nameStyle, ampmStyle, isUpperB, isDigitB, *]; done))
+
+/-- Look one byte further: split `r` into nil / cons, split the new byte into the listed values, try to close. -/
+syntax "look " ident ident " [" num,* "]" : tactic
+macro_rules
+  | `(tactic| look $r:ident $c:ident [$ns,*]) =>
+    `(tactic| (all_goals (rcases $r:ident with _ | ⟨$c:ident, $r:ident⟩ <;> try (bsplit $c [$ns,*]))); fin)
+
+/-- Reduce both sides for a concrete first byte. -/
+macro "start" : tactic => `(tactic| (
+  simp only [munchNext, longestMatch_eq, tokenTable_eq, filter_cons', List.filter_nil, Tok.matchesAt, startsWithCI, startsWith]
+  simp [eqCI_lower, eqCI_other, Lexer.nextNorm, Lexer.next, B, Lexer.parseYear, Lexer.parseHour, Lexer.parseSecond,
+    Lexer.parseFraction, Lexer.parseMeridian, Lexer.parseMonthName, Lexer.parseDayName, pick]))
+
+/-! ## First-token agreement, one lemma per class of the first byte -/
+
+set_option maxHeartbeats 1000000 in
+theorem next_y (c : Nat) (rest : Bytes) (hc : c = 89 ∨ c = 121) :
+    Lexer.nextNorm (c :: rest) = munchNext (c :: rest) := by
+  rcases hc with rfl | rfl <;>
+  · start
+    look rest c2 [89, 121]
+    look rest c3 [89, 121]
+    look rest c4 [89, 121]
+
+theorem next_punct (c : Nat) (rest : Bytes) (hc : c = 45 ∨ c = 58 ∨ c = 47 ∨ c = 92 ∨ c = 44 ∨ c = 46 ∨ c = 59 ∨ c = 84) :
+    Lexer.nextNorm (c :: rest) = munchNext (c :: rest) := by
+  rcases hc with rfl | rfl | rfl | rfl | rfl | rfl | rfl | rfl <;> start
+
+theorem next_w (c : Nat) (rest : Bytes) (hc : c = 87 ∨ c = 119) :
+    Lexer.nextNorm (c :: rest) = munchNext (c :: rest) := by
+  rcases hc with rfl | rfl <;>
+  · start
+    look rest c2 [87, 119]
+
+theorem next_s (c : Nat) (rest : Bytes) (hc : c = 83 ∨ c = 115) :
+    Lexer.nextNorm (c :: rest) = munchNext (c :: rest) := by
+  rcases hc with rfl | rfl <;>
+  · start
+    look rest c2 [83, 115]
+
+set_option maxHeartbeats 1000000 in
+theorem next_ap (c : Nat) (rest : Bytes) (hc : c = 65 ∨ c = 97 ∨ c = 80 ∨ c = 112) :
+    Lexer.nextNorm (c :: rest) = munchNext (c :: rest) := by
+  rcases hc with rfl | rfl | rfl | rfl <;>
+  · start
+    look rest c2 [46, 77, 109]
+    look rest c3 [77, 109]
+    look rest c4 [46]
+
+set_option maxHeartbeats 1000000 in
+theorem next_d (c : Nat) (rest : Bytes) (hc : c = 68 ∨ c = 100) :
+    Lexer.nextNorm (c :: rest) = munchNext (c :: rest) := by
+  rcases hc with rfl | rfl <;>
+  · start
+    look rest c2 [68, 100, 65, 97, 89, 121]
+    look rest c3 [68, 100, 89, 121]
+
+set_option maxHeartbeats 1000000 in
+theorem next_h (c : Nat) (rest : Bytes) (hc : c = 72 ∨ c = 104) :
+    Lexer.nextNorm (c :: rest) = munchNext (c :: rest) := by
+  rcases hc with rfl | rfl <;>
+  · start
+    look rest c2 [72, 104]
+    look rest c3 [49, 50]
+    look rest c4 [50, 52]
+
+set_option maxHeartbeats 1000000 in
+theorem next_m (c : Nat) (rest : Bytes) (hc : c = 77 ∨ c = 109) :
+    Lexer.nextNorm (c :: rest) = munchNext (c :: rest) := by
+  rcases hc with rfl | rfl <;>
+  · start
+    look rest c2 [73, 105, 77, 109, 79, 111]
+    look rest c3 [78, 110]
+    look rest c4 [84, 116]
+    look rest c5 [72, 104]
+
+/-- `s` starts with `ff0` in any letter case. -/
+def startsFF0 (s : Bytes) : Prop := ∃ a b r, s = a :: b :: 48 :: r ∧ (a = 70 ∨ a = 102) ∧ (b = 70 ∨ b = 102)
+
+set_option maxHeartbeats 1000000 in
+theorem next_f (c : Nat) (rest : Bytes) (hc : c = 70 ∨ c = 102) (h : ¬ startsFF0 (c :: rest)) :
+    Lexer.nextNorm (c :: rest) = munchNext (c :: rest) := by
+  rcases hc with rfl | rfl <;>
+  · start
+    look rest c2 [70, 102]
+    all_goals (rcases rest with _ | ⟨c3, rest⟩ <;> try (bsplit c3 [48, 49, 50, 51, 52, 53, 54, 55, 56, 57]))
+    all_goals try (exact absurd ⟨_, _, _, rfl, by decide, by decide⟩ h)
+    fin
+    all_goals
+      have hd : isDigitB c3 = false := by
+        simp only [isDigitB, Bool.and_eq_false_iff, decide_eq_false_iff_not]; omega
+      simp [startsWithCI, startsWith, pick, eqCI_lower, eqCI_other, *]
+
+theorem next_ff0 (a b : Nat) (r : Bytes) (ha : a = 70 ∨ a = 102) (hb : b = 70 ∨ b = 102) :
+    Lexer.nextNorm (a :: b :: 48 :: r) = some none ∧
+    munchNext (a :: b :: 48 :: r) = some (some (.Fraction none, 48 :: r)) ∧
+    munchNext (48 :: r) = some none := by
+  rcases ha with rfl | rfl <;> rcases hb with rfl | rfl <;>
+  · refine ⟨?_, ?_, ?_⟩ <;>
+    · try simp only [munchNext, longestMatch_eq, tokenTable_eq, filter_cons', List.filter_nil, Tok.matchesAt, startsWithCI, startsWith]
+      simp [eqCI_lower, eqCI_other, Lexer.nextNorm, Lexer.next, B, Lexer.parseFraction, pick, isDigitB]
+
+def firstBytes : List Nat :=
+  [32, 45, 58, 47, 92, 44, 46, 59, 84, 65, 97, 80, 112, 68, 100, 70, 102, 72, 104, 77, 109, 83, 115, 89, 121, 87, 119]
+
+set_option maxHeartbeats 1000000 in
+theorem next_other (c : Nat) (rest : Bytes) (hc : c ∉ firstBytes) :
+    Lexer.nextNorm (c :: rest) = munchNext (c :: rest) := by
+  simp only [firstBytes, List.mem_cons, List.mem_nil_iff, not_or, or_false] at hc
+  obtain ⟨_, _, _, _, _, _, _, _, _, _, _, _, _, _, _, _, _, _, _, _, _, _, _, _, _, _, _⟩ := hc
+  simp only [munchNext, longestMatch_eq, tokenTable_eq, filter_cons', List.filter_nil, Tok.matchesAt, startsWithCI, startsWith]
+  simp [eqCI_lower, eqCI_other, Lexer.nextNorm, Lexer.next, B, *]
+
+/-- First-token agreement, for every byte string that does not start with `ff0`. -/
+theorem next_eq_munchNext (s : Bytes) (h : ¬ startsFF0 s) : Lexer.nextNorm s = munchNext s := by
+  cases s with
+  | nil => rfl
+  | cons c rest =>
+    by_cases h0 : c = 32
+    · subst h0; exact next_blank rest
+    by_cases h1 : c = 45 ∨ c = 58 ∨ c = 47 ∨ c = 92 ∨ c = 44 ∨ c = 46 ∨ c = 59 ∨ c = 84
+    · exact next_punct c rest h1
+    by_cases h2 : c = 65 ∨ c = 97 ∨ c = 80 ∨ c = 112
+    · exact next_ap c rest h2
+    by_cases h3 : c = 68 ∨ c = 100
+    · exact next_d c rest h3
+    by_cases h4 : c = 70 ∨ c = 102
+    · exact next_f c rest h4 h
+    by_cases h5 : c = 72 ∨ c = 104
+    · exact next_h c rest h5
+    by_cases h6 : c = 77 ∨ c = 109
+    · exact next_m c rest h6
+    by_cases h7 : c = 83 ∨ c = 115
+    · exact next_s c rest h7
+    by_cases h8 : c = 89 ∨ c = 121
+    · exact next_y c rest h8
+    by_cases h9 : c = 87 ∨ c = 119
+    · exact next_w c rest h9
+    apply next_other
+    simp only [firstBytes, List.mem_cons, List.mem_nil_iff, or_false]
+    omega
+
+/-! ## Whole pictures -/
+
+theorem foldl_pick_mem (l : List Tok) (init : Option Tok) (t : Tok)
+    (h : l.foldl pick init = some t) : init = some t ∨ t ∈ l := by
+  induction l generalizing init with
+  | nil => exact Or.inl h
+  | cons a l ih =>
+    rw [List.foldl_cons] at h
+    rcases ih _ h with h' | h'
+    · cases init with
+      | none => simp [pick] at h'; simp [h']
+      | some b =>
+        simp only [pick] at h'
+        split at h'
+        · simp at h'; simp [h']
+        · exact Or.inl h'
+    · exact Or.inr (List.mem_cons_of_mem _ h')
+
+theorem spelling_pos : tokenTable.all (fun t => decide (1 ≤ t.spelling.length)) = true := by decide
+
+theorem longestMatch_pos (s : Bytes) (t : Tok) (h : longestMatch s = some t) : 1 ≤ t.spelling.length := by
+  rw [longestMatch_eq] at h
+  rcases foldl_pick_mem _ _ _ h with h' | h'
+  · cases h'
+  · have hm : t ∈ tokenTable := (List.mem_filter.mp h').1
+    have := List.all_eq_true.mp spelling_pos t hm
+    simpa using this
+
+theorem munchNext_length (s : Bytes) (f : Field) (r : Bytes) (h : munchNext s = some (some (f, r))) :
+    r.length < s.length := by
+  cases s with
+  | nil => simp [munchNext] at h
+  | cons c rest =>
+    unfold munchNext at h
+    by_cases hc : c = 32
+    · subst hc
+      simp only [if_true, Option.some.injEq, Prod.mk.injEq] at h
+      rw [← h.2]
+      simp
+      omega
+    · simp only [hc, if_false] at h
+      cases hl : longestMatch (c :: rest) with
+      | none => simp [hl] at h
+      | some t =>
+        have hp := longestMatch_pos _ _ hl
+        simp only [hl, Option.some.injEq, Prod.mk.injEq] at h
+        rw [← h.2]
+        simp only [List.length_drop, List.length_cons]
+        omega
+
+theorem tryNewAux_eq (fuel : Nat) (s : Bytes) (acc : List Field) (hf : s.length < fuel) :
+    Lexer.tryNewAux fuel s acc = munchAux fuel s acc := by
+  induction fuel generalizing s acc with
+  | zero => omega
+  | succ fuel ih =>
+    by_cases hff : startsFF0 s
+    · obtain ⟨a, b, r, rfl, ha, hb⟩ := hff
+      obtain ⟨h1, h2, h3⟩ := next_ff0 a b r ha hb
+      unfold Lexer.nextNorm at h1
+      unfold Lexer.tryNewAux munchAux
+      rw [h2]
+      cases hx : Lexer.next (a :: b :: 48 :: r) with
+      | none => simp [hx] at h1
+      | some p =>
+        obtain ⟨fld, r'⟩ := p
+        simp only [hx] at h1
+        have hinv : fld = .Invalid := by
+          by_cases hi : fld = .Invalid
+          · exact hi
+          · simp [hi] at h1
+        simp only [hinv, if_true]
+        split
+        · rfl
+        · cases fuel with
+          | zero => simp at hf
+          | succ fuel' => unfold munchAux; rw [h3]
+    · have h := next_eq_munchNext s hff
+      unfold Lexer.nextNorm at h
+      unfold Lexer.tryNewAux munchAux
+      cases hx : Lexer.next s with
+      | none => simp only [hx] at h; rw [← h]
+      | some p =>
+        obtain ⟨fld, r⟩ := p
+        simp only [hx] at h
+        by_cases hi : fld = .Invalid
+        · simp only [hi, if_true] at h ⊢; rw [← h]
+        · simp only [hi, if_false] at h ⊢
+          rw [← h]
+          have hl := munchNext_length s fld r h.symm
+          simp only
+          split
+          · rfl
+          · exact ih r (fld :: acc) (by omega)
+
+/-- `Formatter::try_new` = maximal munch over the documented table, for every byte string. -/
+theorem tryNew_eq_munch (pic : Bytes) : Lexer.tryNew pic = munch pic :=
+  tryNewAux_eq _ _ _ (Nat.lt_succ_self _)
 
 /-- A run of blanks of any length is one token of exactly that length. -/
 theorem blank_run (n : Nat) (rest : Bytes) (h : rest.head? ≠ some 32) :
